@@ -93,11 +93,12 @@ where
 
     fn start_send(mut self: Pin<&mut Self>, item: Item) -> Result<(), Self::Error> {
         let mut idx = 0;
-        let len = self.entries.len();
-        while idx < len {
+        // The length has to be re-read on every iteration, as evicting a sink shrinks `entries`
+        while idx < self.entries.len() {
+            let is_last = idx == self.entries.len() - 1;
             let (_, sink) = self.entries[idx].borrow_mut();
             pin!(sink);
-            if idx == len - 1 {
+            if is_last {
                 if let Err(e) = sink.start_send(item) {
                     error!("Evicting broken sink from FanoutMany::start_send with err: {e:?}");
                     self.entries.swap_remove(idx);
